@@ -1,5 +1,6 @@
 import LyModel.JsonTree.Spec
 import LyModel.JsonTree.Doc
+import LyModel.JsonTree.MetaView
 import LyModel.Generated.JsonTyping
 /-! driver op of component `jsontree`: `print <rows-hex>` — rows as printed by harness `api_rt` (`jview`). -/
 namespace LyModel.JsonTree.Drv
@@ -95,6 +96,25 @@ def handle (op : String) (args : List String) : String :=
         if !rest.isEmpty then "err BadRows"
         else if rows.any (fun r => !r.metas.isEmpty) then "err HasMeta"
         else "ok " ++ Hex.enc (specData forest)
+  | "jcheck", [h, hp] =>
+    -- trees WITH metadata: the state-free expectation `jsonViewM` (RFC 7951 / 7952 sec. 5.2) against what the independent reader
+    -- makes of LIBYANG's bytes, the model's output against these bytes, and the hypotheses
+    -- -> ok <jmetaOk> <has metadata> <model = libyang> <reader(libyang) = jsonViewM | x>
+    match Hex.dec h, Hex.dec hp with
+    | some b, some px =>
+      let lines := ((String.fromUTF8? (ByteArray.mk b.toArray)).getD "").splitOn "\n" |>.filter (· ≠ "")
+      match lines.mapM parseRow with
+      | none => "err Unsupported"
+      | some rows =>
+        let (forest, rest) := build (2 * rows.length + 2) 0 rows
+        if !rest.isEmpty then "err BadRows"
+        else
+          let read := match JsonDoc.parseDoc px with
+            | none => "x"
+            | some v => if canon v == canon (jsonViewM forest) then "1" else "0"
+          "ok " ++ (if jmetaOk forest then "1" else "0") ++ " " ++ (if rows.any (fun r => !r.metas.isEmpty) then "1" else "0") ++ " " ++
+            (if printData forest == px then "1" else "0") ++ " " ++ read
+    | _, _ => "err BadHex"
   | "docparse", [h] =>
     match Hex.dec h with
     | none => "err BadHex"
